@@ -640,6 +640,10 @@ class Workspace(AbstractContextManager):
         for key, value in referents.items():
             if value() is None:
                 rem_list += [key]
+                # Property groups are stored under their parent object, not in a
+                # flat container of their own: nothing to remove from the file.
+                if rtype == "PropertyGroups":
+                    continue
                 self._io_call(
                     H5Writer.remove_entity, key, rtype, parent=self, mode="r+"
                 )
